@@ -215,3 +215,50 @@ Example ex_gen_run_with_excview :
   exists st, gen_run_top 1 (Scn false [mkFault P_VIEW K_PLAIN 0] [mkReg P_VIEW 3 0] NoSub) [] = (st, Ok P_EXCVIEW)
              /\ map e_pt (log st) = [1; 2; 3; 6; 7; 8; 9; 10; 11; 12; 19; 15; 16; 17; 18]%N.
 Proof. eexists. split; vm_compute; reflexivity. Qed.
+
+(* ---- the SAME request object sent through Router.invoke_request twice inside one request context (a custom
+   execution policy retrying after a failure, or always): stack restored, every event under its own request *)
+Theorem C13_retry_depth : forall ev mode sc1 sc2 s0 st r,
+  run_retry ev mode sc1 sc2 s0 = (st, r) ->
+  stk st = s0 /\ Forall (fun e => e_cur e = true) (log st).
+Proof. exact retry_depth. Qed.
+Print Assumptions C13_retry_depth.
+
+(* the first attempt satisfies the judge of a request on its own *)
+Theorem C13_retry_first_attempt_judged : forall ev sc1 st st1 r1,
+  valid_level sc1 = true -> rq st = [] -> fq st = [] -> nr st = 0%N -> nf st = 0%N ->
+  invoke_request ev 0 sc1 true None st = (st1, r1) ->
+  exists new, log st1 = log st ++ new /\
+    (Forall (fun e => e_cur e = true) new -> judge_pass sc1 0 0 [] new = true).
+Proof. exact retry_first_attempt_judged. Qed.
+Print Assumptions C13_retry_first_attempt_judged.
+
+(* finished callbacks of both attempts (scenarios whose finished callbacks neither raise nor re-register): each
+   attempt runs what is pending at the end of its try body once, in order, after everything else of the attempt and
+   leaves the deque empty; so the second attempt starts empty and runs at its end exactly what was registered
+   during it.
+   TODO (unproved): the full statement  run_retry ev mode sc1 sc2 [] = (st, r) -> valid_level sc1 = true ->
+   valid_level sc2 = true -> judge_retry sc1 sc2 (N.of_nat (length (stk st))) (log st) = true  (needs
+   request_judged generalised to non-zero callback counters and response callbacks left pending; judge_retry is
+   evaluated on the model's own run in every retry case of the correspondence run) *)
+Theorem C13_retry_finished_callbacks : forall ev mode sc1 sc2 st st' r,
+  quiet_fin sc1 -> quiet_fin sc2 ->
+  retry_body (invoke_request ev 0 sc1 true None) (invoke_request ev 0 sc2 true None) mode st = (st', r) ->
+  exists m1 r1 st1,
+    invoke_body ev 0 sc1 true None st = (m1, r1) /\
+    invoke_request ev 0 sc1 true None st = (st1, r1) /\
+    fq st1 = [] /\ log st1 = log m1 ++ map (cb_event P_FIN_CB 0 m1) (fq m1) /\
+    ((mode = false /\ (exists v, r1 = Ok v) /\ st' = st1 /\ r = r1) \/
+     ((mode = true \/ exists k, r1 = Ex k) /\
+      let st2 := log_ev 0 P_RETRY 0 st1 in
+      fq st2 = [] /\
+      exists m2 r2,
+        invoke_body ev 0 sc2 true None st2 = (m2, r2) /\ r = r2 /\ fq st' = [] /\
+        log st' = log m2 ++ map (cb_event P_FIN_CB 0 m2) (fq m2))).
+Proof. exact retry_finished_callbacks. Qed.
+Print Assumptions C13_retry_finished_callbacks.
+
+Theorem C13_gen_run_retry_is_model : forall ev mode sc1 sc2 s0,
+  gen_run_retry ev mode sc1 sc2 s0 = run_retry ev mode sc1 sc2 s0.
+Proof. exact gen_run_retry_is_model. Qed.
+Print Assumptions C13_gen_run_retry_is_model.
